@@ -24,6 +24,7 @@ Menu(t) ==
     CASE t.k \in {"U", "I"} -> {Zeros(t.n), Ones(t.n), Msb(t.n), NatBits(1, t.n)}
       [] t.k = "Bits" -> {Zeros(t.n), Ones(t.n), Msb(t.n)}
       [] t.k = "Zero" -> {Zeros(t.n)}
+      [] t.k = "Unit" -> {<<>>}
       [] t.k = "One" -> {NatBits(1, t.n)}
       [] t.k = "UMax" -> {NatBits(x, t.n) : x \in 0..t.m}
       [] t.k = "URange" -> {NatBits(t.lo, t.n), NatBits(t.hi, t.n), NatBits((t.lo + t.hi) \div 2, t.n), NatBits(t.lo + 1, t.n)}
@@ -39,9 +40,9 @@ Menu(t) ==
                         [grams |-> <<>>, other |-> <<[k |-> Zeros(32), v |-> <<>>], [k |-> Ones(32), v |-> <<1, 0>>]>>]}
       [] t.k \in {"RefCell", "RefAny"} -> {CellA, CellB}
       [] t.k = "AnyRest" -> {CellA, CellC, CellB}
-IsLeaf(t) == t.k \in {"Zero", "One", "UMax", "UPos", "URange", "U", "I", "Bits", "Bool", "VarU", "VarI", "Leq", "AddrInt", "AddrExt", "CC", "RefCell", "RefAny", "AnyRest"}
+IsLeaf(t) == t.k \in {"Zero", "One", "UMax", "UPos", "URange", "Unit", "U", "I", "Bits", "Bool", "VarU", "VarI", "Leq", "AddrInt", "AddrExt", "CC", "RefCell", "RefAny", "AnyRest"}
 Base(t) ==
-    CASE IsLeaf(t) -> (CASE t.k \in {"U", "I", "Bits", "Zero", "UMax"} -> Zeros(t.n) [] t.k \in {"One", "UPos"} -> NatBits(1, t.n) [] t.k = "URange" -> NatBits(t.lo, t.n) [] t.k = "Bool" -> <<0>> [] t.k \in {"VarU", "VarI"} -> <<>>
+    CASE IsLeaf(t) -> (CASE t.k \in {"U", "I", "Bits", "Zero", "UMax"} -> Zeros(t.n) [] t.k \in {"One", "UPos"} -> NatBits(1, t.n) [] t.k = "URange" -> NatBits(t.lo, t.n) [] t.k = "Unit" -> <<>> [] t.k = "Bool" -> <<0>> [] t.k \in {"VarU", "VarI"} -> <<>>
                          [] t.k = "Leq" -> Zeros(BitLen(t.n)) [] t.k = "AddrInt" -> AddrA [] t.k = "AddrExt" -> <<>>
                          [] t.k = "CC" -> CC0 [] t.k \in {"RefCell", "RefAny"} -> CellA [] t.k = "AnyRest" -> CellA)
       [] t.k = "Maybe" -> <<>>
@@ -103,6 +104,7 @@ Pat(n) == [i \in 1..n |-> IF i % 3 = 0 THEN 0 ELSE 1]           \* 110110...: to
 RichLeaf(t) ==
     CASE t.k \in {"U", "I", "Bits", "UPos"} -> Pat(t.n)
       [] t.k = "Zero" -> Zeros(t.n)
+      [] t.k = "Unit" -> <<>>
       [] t.k = "One" -> NatBits(1, t.n)
       [] t.k = "UMax" -> NatBits(t.m, t.n)
       [] t.k = "URange" -> NatBits(t.hi, t.n)
